@@ -324,7 +324,11 @@ func (ss *SourceConf) MarshalJSON() ([]byte, error) {
 		aux.IncludeHidden = "true"
 	}
 	var strings []string
-	for _, p := range append(ss.Include, ss.Ignore...) {
+	// (a slice without spare capacity: an inherited include list may share its
+	// array with the ignore list of the source it was inherited from, and
+	// appending to it must not write there)
+	include := ss.Include[:len(ss.Include):len(ss.Include)]
+	for _, p := range append(include, ss.Ignore...) {
 		strings = append(strings, p.String())
 	}
 	aux.Include = strings[0:len(ss.Include)]
